@@ -244,7 +244,9 @@ def _run_stream_init_sync(
             # method raises past this point takes the ordinary error path.
             _validate_call_signature(info.name, kwargs, info.param_types, info.param_defaults, info.params_schema)
             _validate_params(info.name, kwargs, info.param_types)
-        except (pa.ArrowInvalid, TypeError, StopIteration, RpcError, VersionError) as exc:
+        except (pa.ArrowInvalid, OSError, TypeError, StopIteration, RpcError, VersionError) as exc:
+            # OSError: see _run_unary_sync — pyarrow's ArrowIOError for a
+            # corrupt IPC header is a malformed request, not a server fault.
             raise _RpcHttpError(exc, status_code=HTTPStatus.BAD_REQUEST) from exc
         except Exception as exc:
             # External pointer resolution can fail before stream state exists.
@@ -506,7 +508,14 @@ def _run_stream_exchange_sync(
         try:
             req_reader = ValidatedReader(ipc.open_stream(stream), app._server.ipc_validation)
             input_batch, custom_metadata = req_reader.read_next_batch_with_custom_metadata()
-        except pa.ArrowInvalid as exc:
+        except StopIteration:
+            # A well-formed IPC stream with a schema but no batch.
+            raise _RpcHttpError(
+                pa.ArrowInvalid("Exchange request IPC stream contains no record batch"),
+                status_code=HTTPStatus.BAD_REQUEST,
+            ) from None
+        except (pa.ArrowInvalid, OSError) as exc:
+            # OSError: pyarrow's ArrowIOError for a corrupt IPC header.
             raise _RpcHttpError(exc, status_code=HTTPStatus.BAD_REQUEST) from exc
 
         # Extract both tokens before resolution — resolve_external_location
